@@ -57,6 +57,14 @@ fn real_main(args: &[String]) -> i32 {
             }
             code
         }
+        "extra" if args.len() >= 5 => {
+            let def = match props::find(&args[1]) {
+                Some(d) => d,
+                None => return usage(),
+            };
+            let tier = if args[2] == "thorough" { runner::Tier::Thorough } else { runner::Tier::Quick };
+            runner::extra_main(&def, tier, args[3].parse().unwrap_or(1), &PathBuf::from(&args[4]))
+        }
         "worker" if args.len() >= 7 => {
             let def = match props::find(&args[1]) {
                 Some(d) => d,
